@@ -1456,6 +1456,7 @@ func (e *Engine) execLoop(st *state, fr *frame, h, prev *ssa.BasicBlock, body ma
 	type phiInfo struct {
 		phi  *ssa.Phi
 		init *Val
+		raw  *Val // the initial value as the slice it is (init holds its content)
 		lv   *Val
 	}
 	var phis []*phiInfo
@@ -1475,6 +1476,7 @@ func (e *Engine) execLoop(st *state, fr *frame, h, prev *ssa.BasicBlock, body ma
 		}
 		if _, isSlice := phi.Type().Underlying().(*types.Slice); isSlice {
 			// a slice carried round the loop (narrowed step by step): what matters is the bytes it holds on entry
+			pi.raw = pi.init
 			pi.init = e.contentOf(st, pi.init)
 		}
 		name := phi.Comment
@@ -1805,8 +1807,58 @@ func (e *Engine) execLoop(st *state, fr *frame, h, prev *ssa.BasicBlock, body ma
 		}
 		inv = &Val{Op: "binop", Name: op, Args: []*Val{tested, lc.ctrBound}, Type: types.Typ[types.Bool]}
 	}
+	// a slice narrowed in lock-step with a number that is its length (`for n := len(f); n > 0 && f[n-1] == pad; n-- {
+	// f = f[:n-1] }`): len(slice) == number holds on entry and is kept by every back edge, so it holds at the start of
+	// every iteration
+	var invs []*Val
+	if len(iters) > 0 {
+		for _, ps := range phis {
+			if _, isSlice := ps.phi.Type().Underlying().(*types.Slice); !isSlice {
+				continue
+			}
+			for _, pn := range phis {
+				if pn == ps || !isWordInt(pn.lv.Type) {
+					continue
+				}
+				if affOf(pn.init).Top || !(affOf(mkLen(ps.init)).Equal(affOf(pn.init)) || (ps.raw != nil && affOf(e.lenOf(st, ps.raw)).Equal(affOf(pn.init)))) {
+					continue
+				}
+				kept := true
+				for _, it := range iters {
+					ns, nn := it.Next[ps.lv.Name], it.Next[pn.lv.Name]
+					if ns == nil {
+						ns = ps.lv
+					}
+					if nn == nil {
+						nn = pn.lv
+					}
+					// the length of the next slice, with len(this slice) replaced by the number (the hypothesis)
+					var nl *Affine
+					if x := stripCT(ns); x.Key() == ps.lv.Key() {
+						nl = affOf(pn.lv)
+					} else if x.Op == "slice" && len(x.Args) >= 3 && stripCT(x.Args[0]).Key() == ps.lv.Key() && (len(x.Args) < 4 || x.Args[3] == nil) {
+						hi := affOf(pn.lv)
+						if x.Args[2] != nil {
+							hi = affOf(x.Args[2])
+						}
+						nl = hi
+						if x.Args[1] != nil {
+							nl = hi.Add(affOf(x.Args[1]), -1)
+						}
+					}
+					if nl == nil || nl.Top || !nl.Equal(affOf(nn)) {
+						kept = false
+						break
+					}
+				}
+				if kept {
+					invs = append(invs, &Val{Op: "binop", Name: "==", Args: []*Val{mkLen(ps.lv), pn.lv}, Type: types.Typ[types.Bool]})
+				}
+			}
+		}
+	}
 	rep := func(partial bool) *Event {
-		return &Event{ID: e.id(), Kind: EvRep, LoopID: lid, Count: count, Bounded: bounded, Inv: inv, Iter: iters, Partial: partial, Pos: firstPos(h), Fn: fr.fn, Site: fr.site}
+		return &Event{ID: e.id(), Kind: EvRep, LoopID: lid, Count: count, Bounded: bounded, Inv: inv, Invs: invs, Iter: iters, Partial: partial, Pos: firstPos(h), Fn: fr.fn, Site: fr.site}
 	}
 	// loop-out values of header phis
 	loopOut := map[*ssa.Phi]*Val{}
@@ -3185,4 +3237,17 @@ func (e *Engine) nonNilGlobalLoad(v *Val) bool {
 	}
 	g, ok := v.Args[0].Aux.(*ssa.Global)
 	return ok && e.NonNilPtrGlobals[g]
+}
+
+// lenOf: what the len builtin yields for v in this state (a made slice keeps the length make gave it whatever was read
+// into it; otherwise the length of the content).
+func (e *Engine) lenOf(st *state, v *Val) *Val {
+	x := v
+	for x.Op == "slice" && len(x.Args) >= 3 && x.Args[1] == nil && x.Args[2] == nil {
+		x = x.Args[0]
+	}
+	if x.Op == "makeslice" {
+		return x.Args[0]
+	}
+	return mkLen(e.contentOf(st, v))
 }
